@@ -116,7 +116,8 @@ type caseCfg struct {
 
 func (c *caseCfg) script() string {
 	s := "stream\n  |from().measurement('m').groupBy('id')\n  |alert()\n    .id('{{ index .Tags \"id\" }}')\n" +
-		"    .info(lambda: \"v\" >= 1)\n    .warn(lambda: \"v\" >= 2)\n    .crit(lambda: \"v\" >= 3)\n"
+		"    .info(lambda: \"v\" >= 1)\n    .warn(lambda: \"v\" >= 2)\n    .crit(lambda: \"v\" >= 3)\n" +
+		"    .message('{{ index .Tags \"note\" }}')\n    .details('{{ index .Tags \"note\" }}')\n"
 	if c.named {
 		s += "    .topic('" + namedTopic + "')\n"
 	}
@@ -209,8 +210,16 @@ func (p *proc) alertCollected() int64 {
 	return -1
 }
 
-func (p *proc) write(id string, v int64, t int64) error {
-	pt, err := imodels.NewPoint("m", imodels.NewTags(map[string]string{"id": id}), imodels.Fields{"v": v}, time.Unix(0, t).UTC())
+func (p *proc) write(id string, v int64, t int64) error { return p.writeNote(id, v, t, "") }
+
+// writeNote: the point carries the tag note=<note> when note is not empty; message and details of the alert are
+// rendered from that tag and are EMPTY without it.
+func (p *proc) writeNote(id string, v int64, t int64, note string) error {
+	tags := map[string]string{"id": id}
+	if note != "" {
+		tags["note"] = note
+	}
+	pt, err := imodels.NewPoint("m", imodels.NewTags(tags), imodels.Fields{"v": v}, time.Unix(0, t).UTC())
 	if err != nil {
 		return err
 	}
@@ -265,17 +274,22 @@ func (p *proc) close() {
 func un(s string) string { v, _ := kit.Unesc(s); return v }
 func atoi(s string) int64 { v, _ := strconv.ParseInt(s, 10, 64); return v }
 
-func mkEvent(topic, id string, level, t int64) alert.Event {
-	return alert.Event{Topic: topic, State: alert.EventState{ID: id, Level: alert.Level(level), Time: time.Unix(0, t).UTC()}}
+// mkEvent: t = <topic> <id> <level> <time> [<duration> <message> <details>]
+func mkEvent(topic string, t []string) alert.Event {
+	st := alert.EventState{ID: un(t[0]), Level: alert.Level(atoi(t[1])), Time: time.Unix(0, atoi(t[2])).UTC()}
+	if len(t) >= 6 {
+		st.Duration, st.Message, st.Details = time.Duration(atoi(t[3])), un(t[4]), un(t[5])
+	}
+	return alert.Event{Topic: topic, State: st}
 }
 
 // apply executes one history op on the running process.
 func (p *proc) apply(t []string) error {
 	switch t[0] {
 	case "collect":
-		return p.as.Collect(mkEvent(un(t[1]), un(t[2]), atoi(t[3]), atoi(t[4])))
+		return p.as.Collect(mkEvent(un(t[1]), t[2:]))
 	case "update":
-		return p.as.UpdateEvent(un(t[1]), mkEvent("", un(t[2]), atoi(t[3]), atoi(t[4])).State)
+		return p.as.UpdateEvent(un(t[1]), mkEvent("", t[2:]).State)
 	case "close":
 		p.rc.retire(p.as, un(t[1]))
 		err := p.as.CloseTopic(un(t[1]))
@@ -289,7 +303,11 @@ func (p *proc) apply(t []string) error {
 		p.rc.register(p.as, un(t[1]))
 		return err
 	case "point":
-		if err := p.write(un(t[1]), atoi(t[2]), atoi(t[3])); err != nil {
+		note := ""
+		if len(t) >= 5 {
+			note = un(t[4])
+		}
+		if err := p.writeNote(un(t[1]), atoi(t[2]), atoi(t[3]), note); err != nil {
 			return err
 		}
 		return p.barrier()
